@@ -1,4 +1,5 @@
 """C35 - SCHEDULE yields exactly the scheduled occurrences (Schedule.tla)."""
+import glob
 import json
 import os
 import re
@@ -82,11 +83,33 @@ def _selftest(ctx, files, failures):
     raise tlc.MachineryError("self-test: Trace_Schedule judged the corrupted cases as %s" % (got,))
 
 
+def _enumerate(ctx, cfg):
+  """
+  Like fnspec.enumerate_inputs, but MC_Schedule writes one file per schedule (the inputs of a schedule are
+  the successors of that schedule's initial state, so that the 16 TLC workers share the work).
+  """
+  prefix = os.path.join(ctx.workdir, "inputs-" + ctx.tier)
+  res = tlc.run_model("MC_Schedule", cfg, ctx.workdir, workers=16, timeout=3000, xmx="8g",
+                      env_extra={"OUT_FILE": prefix}, coverage=False)
+  if res["rc"] != 0 or res["violated"]:
+    raise tlc.MachineryError("design model MC_Schedule/%s failed:\n%s" % (cfg, res["out"][-3000:]))
+  chunks = sorted(glob.glob(prefix + ".*.json"), key=lambda p: int(p.split(".")[-2]))
+  inputs = []
+  for p in chunks:
+    inputs.extend(json.load(open(p)))
+  # states = one per schedule (and one for the probes) + one per input
+  if not inputs or res["distinct"] != len(inputs) + len(chunks):
+    raise tlc.MachineryError("design model wrote %d inputs in %d files but explored %d states"
+                             % (len(inputs), len(chunks), res["distinct"]))
+  res["schedules"] = len(chunks) - 1
+  return inputs, res
+
+
 def run(ctx):
   cfg = "MC_Schedule_%s.cfg" % ctx.tier
-  # one state per input, all of them initial states: TLC computes those in a single thread anyway
-  inputs, model = fnspec.enumerate_inputs("MC_Schedule", cfg, ctx.workdir, workers=1)
-  ctx.log("TLC enumerated %d inputs (%d distinct states, %.0fs)" % (len(inputs), model["distinct"], model["wall"]))
+  inputs, model = _enumerate(ctx, cfg)
+  ctx.log("TLC enumerated %d inputs of %d schedules (%d distinct states, %.0fs)"
+          % (len(inputs), model["schedules"], model["distinct"], model["wall"]))
   extra = {"nshards": NSHARDS, "variants": VARIANTS[ctx.tier], "seed": ctx.seed,
            "nrandom": NRANDOM[ctx.tier], "catalogues": True}
   files = fnspec.run_cases("fn_schedule.py", inputs, ctx.workdir, nshards=NSHARDS, extra=extra)
